@@ -75,7 +75,14 @@ Inductive case :=
 | CNMap (methods : list Z) (len_id : Z) (init : list (Z * Z)) (ops : list nop) (o : list ob)
 (* delete c[i] on a bridged []T (cont 0), *[N]T (1), [N]T by value (2) whose element was [old]:
    the result of delete, the Go-side element afterwards, what the script reads at that index afterwards *)
-| CDelElem (cont : Z) (t : gty) (inrange : bool) (old : gv) (res : Z) (after : gv) (js : jobs).
+| CDelElem (cont : Z) (t : gty) (inrange : bool) (old : gv) (res : Z) (after : gv) (js : jobs)
+(* a script write of JS number v over an element that already holds [old] (often a value the
+   script cannot tell from v: +0 / -0, the same number in another Go type), into a container
+   (0 map[string]T, 1 []T, 2 *[1]T, 3 *struct{F T}) with T = float64 (tk 0), float32 (1),
+   interface{} (2): the Go-side element afterwards *)
+| CEqWrite (cont tk : Z) (v : src) (old : gv) (after : gv)
+(* Value.Export() of a script value (objects that are referenced more than once appear once per reference) *)
+| CExport (v : jsv) (o : gv).
 
 (* what a script reads from a bridged numeric element: the double nearest to it *)
 Definition js_read (o : outcome) : option dclass :=
@@ -225,6 +232,22 @@ Definition verdict (c : case) : Z * Z :=
                else (0, old, JoUndef) in
       judge (fun a b => (fst (fst a) =? fst (fst b)) && gv_eqb (snd (fst a)) (snd (fst b)) && jobs_eqb (snd a) (snd b))
             (res, after, js) e e 0
+  | CEqWrite cont tk v old after =>
+      if src_wf v then
+        let t := if tk =? 1 then KF32 else KF64 in
+        let payload := let '(k, p) := v in if is_float k then GVF k (decode p) else GVI k p in
+        let of_outcome (o : outcome) := match o with OkI k n => GVI k n | OkF k d => GVF k d | Err _ => old end in
+        let e := fun (ideal : bool) =>
+          if tk =? 2 then payload
+          else if cont =? 3 then of_outcome (if ideal then spec_convert v t else convertNumeric v t)
+          else of_outcome (if ideal then spec_store (SNum v) t else toReflectNum (SNum v) t) in
+        judge gv_eqb after (e false) (e true) (if cont =? 3 then 1 else 4)
+      else declined
+  | CExport v o =>
+      match export 12 v with
+      | Some g => judge gv_eqb o g g 0
+      | None => declined
+      end
   | CKMap kk init ops o => judge obs_eqb o (krun false kk init ops) (krun true kk init ops) 17
   | CCallback nparams rt r seen o =>
       match cb_call false false rt r with
